@@ -200,6 +200,7 @@ func syntaxInputs(seed int64, short, nGram, nMut int) []SynIn {
 	hand := gen.Handwritten()
 	add("hand", hand)
 	add("numforms", gen.NumberForms())
+	add("regexforms", gen.RegexForms(seed, nMut/10+500))
 	add("repo", gen.RepoLiterals("/repo/path", 300))
 	sent, mut := gen.GrammarInputs(seed, nGram)
 	add("gram", sent)
